@@ -57,7 +57,56 @@ func (q *searcher) report(key, desc string) {
 	}
 	q.found[key] = true
 	h := append([]string{}, q.hist...)
-	q.findings = append(q.findings, finding{key, desc, h})
+	if len(h) > 4000 {
+		h = h[len(h)-4000:]
+	}
+	f := finding{key, desc, h}
+	q.findings = append(q.findings, f)
+	// printed at once: a run cut short by the time limit still delivers what it found
+	b, _ := json.Marshal(f)
+	fmt.Println("FINDING " + string(b))
+	os.Stdout.Sync()
+}
+
+// nonceExhaustive: small-scope exhaustive input for the nonce clauses, independent of any random
+// budget: one sender, every sequence of four nonces from {0..3} (all RequestId 0) in every
+// submission order, for state nonces 0..2, plus a bystander of another sender; PackForCast is
+// checked by the oracle after each. 768 packs.
+func (q *searcher) nonceExhaustive() {
+	s := q.s
+	q.onChain = map[common.Hash]int{}
+	var op string
+	hx.Guard(func() string { op = s.w.Reset(true, true, true, true, 0); return "" })
+	s.all, s.chain, s.reqSeq = nil, nil, 100
+	srcs := canonicalSources(s.r)
+	for sigma := uint64(0); sigma < 3; sigma++ {
+		for code := 0; code < 256; code++ {
+			q.hist = []string{op, fmt.Sprintf("nonce %s %d", hx.Hex([]byte(srcs[0])), sigma)}
+			s.w.SetNonce(srcs[0], sigma)
+			var ids []int
+			c := code
+			for k := 0; k < 4; k++ {
+				id, l := s.w.NewTx(s.r.Bytes(32), srcs[0], uint64(c%4), 0, 0)
+				c /= 4
+				q.line(l)
+				ids = append(ids, id)
+				q.line("add " + strconv.Itoa(id))
+				s.w.Add(id)
+			}
+			id, l := s.w.NewTx(s.r.Bytes(32), srcs[1], uint64(code%3), 0, 0)
+			q.line(l)
+			q.line("add " + strconv.Itoa(id))
+			s.w.Add(id)
+			ids = append(ids, id)
+			q.opPack()
+			// take them out again (evicted list of an empty block)
+			s.w.Mark(nil, nil, ids)
+			for _, i := range ids {
+				delete(s.w.ids, s.w.txs[i])
+				delete(s.w.txs, i)
+			}
+		}
+	}
 }
 
 // tap: collect op lines of the current script so a finding carries its history.
@@ -76,6 +125,38 @@ func (q *searcher) checkPending(op string) {
 	}
 	if w.pool.TxNum() != len(rec) {
 		q.report("pending-corrupt", fmt.Sprintf("TxNum=%d but %d received after %s", w.pool.TxNum(), len(rec), op))
+	}
+}
+
+// checkRecords: the executed records are exactly the transactions with a receipt on the current chain
+// (the refinement invariant `history_refines`, as a run-time oracle): a record for a transaction whose block
+// was removed (or never existed) blocks its re-submission for good, a missing one lets it in twice.
+func (q *searcher) checkRecords(op string) {
+	q.evals++
+	w := q.s.w
+	pend := map[common.Hash]bool{}
+	for _, t := range w.pool.GetReceived() {
+		pend[t.Hash] = true
+	}
+	for _, id := range q.s.all {
+		tx, ok := w.txs[id]
+		if !ok {
+			continue
+		}
+		has := w.pool.IsExisted(tx.Hash) && !pend[tx.Hash]
+		if has && pend[tx.Hash] {
+			continue
+		}
+		rec := w.pool.IsExisted(tx.Hash) && (!pend[tx.Hash] || w.pool.GetExecuted(tx.Hash) != nil)
+		if rec && !pend[tx.Hash] && q.onChain[tx.Hash] == 0 {
+			q.report("executed-record-stale", fmt.Sprintf("after %s: %s has an executed record but no receipt on the current chain", op, tx.Hash.String()))
+		}
+		if pend[tx.Hash] && w.pool.GetExecuted(tx.Hash) != nil {
+			q.report("executed-record-stale", fmt.Sprintf("after %s: %s is pending and has an executed record (its block is not on the chain: %v)", op, tx.Hash.String(), q.onChain[tx.Hash] == 0))
+		}
+		if q.onChain[tx.Hash] > 0 && !w.pool.IsExisted(tx.Hash) {
+			q.report("executed-record-missing", fmt.Sprintf("after %s: %s has a receipt on the chain but no executed record", op, tx.Hash.String()))
+		}
 	}
 }
 
@@ -179,6 +260,7 @@ func (q *searcher) opMark(b block) bool {
 		}
 	}
 	q.checkPending("mark")
+	q.checkRecords("mark")
 	return true
 }
 
@@ -214,6 +296,7 @@ func (q *searcher) opUnmark(b block) {
 		}
 	}
 	q.checkPending("unmark")
+	q.checkRecords("unmark")
 }
 
 func (q *searcher) history(nops int, limit int) {
@@ -412,6 +495,7 @@ func runSearch(a map[string]string, pool service.TransactionPool) {
 	s := &script{w: newWorld(pool), r: r}
 	q := &searcher{s: s, found: map[string]bool{}}
 	n := hx.ArgInt(a, "histories", 40)
+	q.nonceExhaustive()
 	for i := 0; i < n; i++ {
 		limit := 0
 		if r.Chance(1, 4) {
@@ -421,14 +505,7 @@ func runSearch(a map[string]string, pool service.TransactionPool) {
 	}
 	q.bigPack()
 	q.fullPoolReal()
-	for _, f := range q.findings {
-		if len(f.History) > 4000 {
-			f.History = f.History[len(f.History)-4000:]
-		}
-		b, _ := json.Marshal(f)
-		fmt.Println("FINDING " + string(b))
-	}
-	fmt.Printf("SEARCH {\"evaluations\":%d,\"histories\":%d}\n", q.evals, n+2)
+	fmt.Printf("SEARCH {\"evaluations\":%d,\"histories\":%d}\n", q.evals, n+3)
 }
 
 // ---------------------------------------------------------------------------
